@@ -117,6 +117,19 @@ CLAIMED["C17"] = dict(
     technique="TLA+ spec LocalRun/LocalRunReq + TLC scenario enumeration, replay through the real LocalDataset with a stand-in docker, TLC trace validation (LocalRunTrace)",
 )
 
+CLAIMED["C14"] = dict(
+    category="model_checking",
+    text="TLC explores the block-ingestion loop as coded against the required behaviour (Outcome: conflict / unknown field => error; Slots: per field, the lines of "
+         "each distinct block in arrival order) for every block list in scope and exports the lists; each is sent as inject_code metadata through the real executor; "
+         "the rendered ATLAS files are split into structural regions (include areas, class body, ctor initialiser list, ctor body, initialize(), LINK_LIBRARIES, "
+         "everything else) and TLC (InjectTrace) requires every region to contain exactly the slots of its field, text unaltered (incl. template-special text); on "
+         "CMS the body includes are checked.",
+    design_ref="DESIGN.md section 5 C14, section 2.7",
+    note="Lists up to 2 (quick) / 3 (thorough) blocks over 2 names x 8 shapes x unknown-field flag; regions are located by fixed template text; the probe-compile "
+         "cross-check of DESIGN section 5 is not built.",
+    technique="TLA+ spec Inject/MCInject + TLC enumeration, replay through the real executor and templates, TLC trace validation (InjectTrace)",
+)
+
 PENDING = "check not built yet in this round (planned, see DESIGN.md section 11); not claimed until its machinery exists"
 
 
